@@ -98,7 +98,7 @@ kind_to_target = dict(
     floor="std::floor({0})",
     copysign=NotImplemented,
     round="std::round({0})",
-    sign="({0} == 0 ? {0} : std::copysign(1, {0}))",
+    sign="({0} == 0 ? {0} : std::copysign({typeof_0}(1), {0}))",
     truncate=NotImplemented,
     conjugate=NotImplemented,
     real="({0}).real()",
